@@ -10,10 +10,10 @@ META = {
     "design_ref": "5/C24",
     "coq_targets": ["Props/Properties_C24.vo", "ObjFmt/Check.vo"],
     "coq_files": ["Gen/ObjFmtConsts.v", "ObjFmt/Model.v", "ObjFmt/Spec.v", "ObjFmt/Proofs.v", "ObjFmt/SliceProofs.v", "ObjFmt/Check.v",
-                  "ObjFmt/RefProofs.v", "Props/Properties_C24.v"],
+                  "ObjFmt/RefProofs.v", "ObjFmt/RefWitness.v", "Props/Properties_C24.v"],
     "theorems": ["C24_stored_implies_valid", "C24_replicated_implies_valid", "C24_client_put_strict_auth", "C24_chunking_irrelevant",
                  "C24_size_mismatch_rejected", "C24_short_payload_rejected", "C24_slices_reassemble_partial",
-                 "C24_reference_is_spec", "C24_reference_complete_partial", "C24_attr_loop_is_spec"],
+                 "C24_reference_is_spec", "C24_reference_complete_partial", "C24_reference_converse_refuted", "C24_attr_loop_is_spec"],
     "technique": "Coq proof over an executable transcription of FormatValidator.validate / checkEC / AuthenticateObject / validatingTarget / "
                  "ValidateAndStoreObjectLocally / the slicer's payload arithmetic, with hash, streaming hash and signatures as Section variables; "
                  "differential tie: the real putsvc.Service (Streamer and the replicate validation) over recording fakes on objects valid or mutated in one field "
@@ -31,7 +31,7 @@ META = {
                   "child objects are SDK internals outside the model — the harness re-verifies every stored child independently (ID, size, checksum, signature) instead; "
                   "(3) trusted-path ties use containers without EC rules and requests without session tokens; V2 session tokens and the N3 scheme are modelled but not tied; "
                   "(4) quota arithmetic ignores uint64 wrap; (5) premise: the header object passed to Streamer.Init carries no payload (true for the only production caller). "
-                  "(6) the executable reference stored_okb evaluated by the check implies the Prop stored_ok of the theorems (C24_reference_is_spec: no violation of stored_ok can pass the reference evaluation); the converse holds only up to three places where the executable form is stronger - script-length bounds in authenticate, hash-attribute length checks in check_ec_part, EC classification of an EC part's parent header - (C24_reference_complete_partial, these three as premises), so a reference failure reported by the check on such an object would not by itself contradict stored_ok; the attribute loop equals the nodupb/forallb form and attrs_ok (C24_attr_loop_is_spec). "
+                  "(6) the executable reference stored_okb evaluated by the check implies the Prop stored_ok of the theorems (C24_reference_is_spec: no violation of stored_ok can pass the reference evaluation); the converse holds only up to three places where the executable form is stronger - script-length bounds in authenticate, hash-attribute length checks in check_ec_part, EC classification of an EC part's parent header - (C24_reference_complete_partial, these three as premises; C24_reference_converse_refuted: witness with an over-long key length), so a reference failure reported by the check on such an object would not by itself contradict stored_ok; the attribute loop equals the nodupb/forallb form and attrs_ok (C24_attr_loop_is_spec). "
                   "Runtime behaviour not modelled: placement/broadcast to other nodes (C25), concurrency of the EC part writers.",
     "trusted_base": ["Coq 8.16.1 kernel, vm_compute", "model ObjFmt/Model.v hand-written, tied by differential check", "abstraction of real objects into model objects by harness/cmd/objfmt (gen.go: abstract)",
                      "harness/cmd/objfmt, harness/lib/putfake, lib/vlib.py"],
